@@ -540,6 +540,8 @@ def gen_project(rng, root, rep=None, idx=0, offset=0):
     sub = rng.choice(['sub', 'sub dir', 'a/b c'])
     datadir_arg = rng.choice(['demo', 'demo data/v 1'])
     hdrdir_arg = rng.choice([None, None, 'demo-1.0', 'my hdrs'])
+    if (idx + offset) % 2 == 0:
+        hdrdir_arg = None          # dealt out in turn: a directory installed AT an install root (destination with an empty suffix)
     man = rng.random() < 0.8
     man_gz = rng.random() < 0.7          # a compressed page: the installed file is a build-directory output with a directory part
     extras = [{'name': ('v' if v else 'u') + {'exe': 'p', 'lib': 'l', 'explicit': 'e'}[w], 'ver': v, 'way': w, 'value': 3 + 2 * k}
